@@ -501,8 +501,10 @@ pub fn gen_program(rng: &mut Rng, size: usize) -> Prog {
     // mostly a plain END; sometimes the program's last statement leaves a label behind the last opcode
     // (the false branch of a trailing IF, the exit of a loop that never runs): D20
     if g.sub_bodies.is_empty() && (data_early || n_data == 0) && g.rng.chance(1, 4) {
-        let l = *g.rng.pick(&["IF 0 THEN END", "IF A=-12345 THEN END", "IF 0 THEN STOP", "WHILE 0:WEND", "FOR Z9=1 TO 0:NEXT", "IF 0 THEN RETURN", "ON 0 GOTO 10", "IF 0 THEN END ELSE IF 0 THEN END"]);
-        g.emit(l.into());
+        let first = g.lines.first().map(|(n, _)| *n).unwrap_or(g.next_line);
+        let on = format!("ON 0 GOTO {}", first); // an existing line: a dangling reference would be a different test
+        let l = g.rng.pick(&["IF 0 THEN END", "IF A=-12345 THEN END", "IF 0 THEN STOP", "WHILE 0:WEND", "FOR Z9=1 TO 0:NEXT", "IF 0 THEN RETURN", on.as_str(), "IF 0 THEN END ELSE IF 0 THEN END"]).to_string();
+        g.emit(l);
     } else {
         g.emit("END".into());
     }
